@@ -54,14 +54,14 @@ fn gen_pssm(rng: &mut impl Rng, m: usize, kind: usize) -> Vec<Vec<i64>> {
         .collect()
 }
 
-fn gen_seq(rng: &mut impl Rng, l: usize, pssm: &[Vec<i64>], kind: usize) -> Vec<usize> {
+fn gen_seq(rng: &mut impl Rng, l: usize, pssm: &[Vec<i64>], kind: usize, plant: bool) -> Vec<usize> {
     let m = pssm.len();
     let mut s: Vec<usize> = match kind % 3 {
         0 => random_ranks::<A>(rng, l, 0.0),
         1 => random_ranks::<A>(rng, l, 0.08),
         _ => (0..l).map(|_| rng.gen_range(0..2)).collect(),     // low complexity: many tied windows
     };
-    if l >= m && m > 0 {
+    if l >= m && m > 0 && plant {
         // plant consensus and near-consensus words
         let cons: Vec<usize> = pssm.iter().map(|row| row[..KK - 1].iter().enumerate().max_by_key(|x| *x.1).unwrap().0).collect();
         for _ in 0..rng.gen_range(0..4) {
@@ -95,9 +95,9 @@ fn gen_thr(_rng: &mut impl Rng, pssm: &[Vec<i64>], scores: &[i64], kind: usize) 
     }
 }
 
-pub fn gen_input(rng: &mut impl Rng, l: usize, m: usize, kind: usize) -> Input {
+pub fn gen_input(rng: &mut impl Rng, l: usize, m: usize, kind: usize, plant: bool) -> Input {
     let pssm = gen_pssm(rng, m, kind);
-    let ranks = gen_seq(rng, l, &pssm, kind / 5);
+    let ranks = gen_seq(rng, l, &pssm, kind / 5, plant);
     let scores = window_scores(&pssm, &ranks);
     let tk = rng.gen_range(0..8);
     let (thr, thr_kind) = gen_thr(rng, &pssm, &scores, tk);
@@ -216,11 +216,15 @@ pub fn record_c02(rec: &mut Recorder, seed: u64, thorough: bool) {
     for (l, m, bs) in shapes(thorough, &mut r).into_iter().chain(big_shapes(thorough, &mut r)) {
         for _ in 0..(if l <= 64 { 2 } else { 1 }) {
             kind += 1;
-            let inp = gen_input(&mut r, l, m, kind);
+            // the consensus word is planted for the AVX2 arm only: on the other arms it would mostly exercise the known
+            // non-saturating generic 8-bit kernel (C08) instead of the scanner logic
+            let inp = gen_input(&mut r, l, m, kind, true);
+            let plain = gen_input(&mut r, l, m, kind, false);
             for arm in Arm::all() {
                 if l > 4000 && arm != Arm::Avx2 && !thorough { continue; }
-                history(rec, &inp, arm, bs, None, kind % 4 == 0, "exhaust");
+                history(rec, if arm == Arm::Avx2 { &inp } else { &plain }, arm, bs, None, kind % 4 == 0, "exhaust");
             }
+            if kind % 3 == 0 { history(rec, &plain, Arm::Avx2, bs, None, false, "exhaust"); }
         }
     }
 }
@@ -232,7 +236,7 @@ fn many_pending(rec: &mut Recorder, r: &mut impl Rng, thorough: bool) {
         let l = r.gen_range(40..700);
         let m = r.gen_range(6..=14);
         let pssm = gen_pssm(r, m, if it % 3 == 0 { 4 } else { 0 });       // wide range: coarse 8-bit steps over a 1/4 grid
-        let ranks = gen_seq(r, l, &pssm, it);
+        let ranks = gen_seq(r, l, &pssm, it, true);
         let mut scores: Vec<i64> = window_scores(&pssm, &ranks).into_iter().filter(|&x| x != NINF).collect();
         scores.sort();
         if scores.is_empty() { continue; }
@@ -290,10 +294,10 @@ pub fn record_c03(rec: &mut Recorder, seed: u64, thorough: bool) {
     let mut kind = 0;
     for (l, m, bs) in shapes(thorough, &mut r).into_iter().chain(big_shapes(thorough, &mut r)) {
         kind += 1;
-        let inp = gen_input(&mut r, l, m, kind);
+        let arm = Arm::all()[kind % 3];
+        let inp = gen_input(&mut r, l, m, kind, arm == Arm::Avx2);
         let nqual = window_scores(&inp.pssm, &inp.ranks).iter().filter(|&&s| s >= inp.thr).count();
         let k = match r.gen_range(0..4) { 0 => 0, 1 => nqual + 1, _ => r.gen_range(0..=nqual.min(6)) };
-        let arm = Arm::all()[kind % 3];
         // the same input and prefix length with two block sizes (and a second arm)
         let bs2 = [1usize, 2, 3, 5, 256][r.gen_range(0..5)];
         history(rec, &inp, arm, bs, Some(k), false, "max");
